@@ -59,6 +59,28 @@ def json_conf(nq, nt, rule, per_shard=40):
         "assumptions": ["floats finite and strings valid UTF-8 inside the theorems' domain (other inputs are still modelled and compared)"],
     }
 
+def k2_step(prop, tier, seed, work, env, sh):
+    """C04, runtime part: a Go stack overflow is fatal to the process, so deep nesting is probed in a sub-process."""
+    import os
+    h = os.path.join(os.path.dirname(os.path.dirname(os.path.abspath(__file__))), "harness", "harness")
+    cases, notes = [], []
+    rc, out = sh(["timeout", "120", h, "k2probe", "--n", "100000"], cwd=work, env=env)
+    ok = rc == 0 and "survived" in out
+    cases.append({"coq": "", "desc": {"probe": "ParseList(strings.Repeat(\"[\", 100000)) in a sub-process", "output": out[-300:]},
+                  "pred": ok, "pred_msg": "" if ok else "ParseList did not terminate normally on 100000 nested opening brackets",
+                  "nontrivial": True, "key": "k2probe-100000", "tags": ["deep-nesting-probe"]})
+    rc, out = sh(["timeout", "120", h, "k2probe", "--n", "3000000"], cwd=work, env=env)
+    died = "stack overflow" in out
+    ok = rc == 0 and "survived" in out
+    c = {"coq": "", "desc": {"probe": "ParseList(strings.Repeat(\"[\", 3000000)) in a sub-process", "output": out[:300]},
+         "pred": ok, "pred_msg": "" if ok else "the process died with a Go stack overflow (fatal, not a recoverable panic)" if died else "the probe failed: " + out[-200:],
+         "nontrivial": True, "key": "k2probe-3000000", "tags": ["deep-nesting-probe"]}
+    if died:
+        c["extra"] = {"finding": "K2"}
+    cases.append(c)
+    notes.append("deep-nesting probe: depth 100000 %s; depth 3000000 %s" % ("ok" if cases[0]["pred"] else "FAILED", "ok" if ok else ("fatal stack overflow" if died else "failed")))
+    return {"cases": cases, "notes": notes}
+
 PROPS = {
     "C18": {
         "mismatch_is_input": True,
@@ -150,13 +172,40 @@ PROPS = {
     "C03": json_conf(1500, 80000,
         "grammar-generated valid JSON texts with array/object root: whitespace from {space, tab, LF, CR} in every slot, all 8 short escapes, \\uXXXX in both hex cases incl. controls "
         "and U+FFFD, surrogate pairs, 38 number spellings incl. int64 boundaries and 30-digit ints, duplicate keys, text around the root; parsed tree compared with the model and with encoding/json"),
-    "C04": json_conf(2500, 150000,
+    "C04": dict(json_conf(2500, 150000,
         "five streams: proper prefixes of serialised documents (last-byte cut and random cuts), 17 kinds of ill-formed UTF-8 inserted between the root brackets, garbage over a "
-        "32-symbol alphabet, mutated documents (flip/delete/insert/duplicate), ParseFile on temp files / a missing path / a directory; each input parsed twice", per_shard=100),
+        "32-symbol alphabet, mutated documents (flip/delete/insert/duplicate), ParseFile on temp files / a missing path / a directory; each input parsed twice; plus a sub-process probe of very deep nesting", per_shard=100), extra_steps=[k2_step]),
     "C16": json_conf(700, 40000,
         "trees as in C02 x indents {one of -1,11,-5,100; 0; one of 1..4; one of 5,7,10}: FormatString bytes are checked to be the canonical re-layout (fix point of relayout and of "
         "indent_text) of exactly the tokens String() writes; panics outside 0..10", per_shard=25),
     "C20": json_conf(1500, 80000,
         "multi-line documents (newlines in every whitespace slot, nested containers, 0-3 lines of text before the root, text after it) with one injected error: invalid literal, "
         "wrong character instead of ':', unquoted key; class, cited line and cited character/token compared with the model", per_shard=100),
+    "C12": {
+        "mismatch_is_input": True,
+        "n": {"quick": 4000, "thorough": 200000},
+        "per_shard": 300,
+        "run_header": "From Anytype Require Import Base FloatBits Value Native RunCommon RunJson RunNative.\nLocal Open Scope Z_scope.\n",
+        "run_check": "c12_check",
+        "run_show": "(fun c => let '(g, _, _, _) := c in c12_model g)",
+        "rule": "Go values of every supported dynamic type (int8..int64, uint8..uint64 at boundaries -128 127 200 255 40000 65535 3e9 2^32-1 2^63-1 2^63 2^64-1 and random, "
+                "float32 incl. subnormals/max/+-0/NaN/Inf, all seven slice and seven map flavours, existing Lists/Objects, nested []any / map[string]any to depth 3) and "
+                "16 unsupported samples, stored through 13 entry points (NewList, NewListOf, NewListFrom, Add, Insert, Replace, SetTF, NewObject, NewObjectFrom, Set, "
+                "Object.SetTF, Map, MapValues); the stored tree (or panic) is compared with the model; distinct by Go value",
+        "trusted": ["modelled, not verified: parseVal's type switch (Native.norm), Go's integer conversions int(uintN)/int(intN) and float64(float32) on bit patterns",
+                    "the harness's reflect-based classification of Go values into the model's gov constructors"],
+        "assumptions": [],
+    },
+    "C13": {
+        "mismatch_is_input": True,
+        "n": {"quick": 2000, "thorough": 100000},
+        "per_shard": 150,
+        "run_header": "From Anytype Require Import Base FloatBits Value Native RunCommon RunJson RunNative.\nLocal Open Scope Z_scope.\n",
+        "run_check": "c13_check",
+        "run_show": "(fun c => let '(v, _, _) := c in c13_model v)",
+        "rule": "container trees of depth <= 5 (all kinds, NaN/Inf included); NativeSlice/NativeDict export and Slice()/Dict() snapshot are compared with the model; the harness "
+                "additionally mutates the export, the snapshot, the source Go value and the container and checks that the other side never changes; non-trivial = at least 4 nodes",
+        "trusted": ["non-aliasing of exported/imported Go maps and slices with the container's storage rests on Go's type system (different element types) plus the dynamic mutation predicate"],
+        "assumptions": [],
+    },
 }
